@@ -1,4 +1,4 @@
 SPECIFICATION BSpec
-CONSTANTS MaxChrom = 2  MaxUnits = 6  Kinds = {"edge", "snp", "ins", "multi", "inv", "nested"}  EndKinds = {"tip", "endsnp"}  Defects = {}  MaxDefects = 0  MinUnits = 6  Pattern <- LongPattern
+CONSTANTS MaxChrom = 2  MaxUnits = 6  Kinds = {"edge", "snp", "ins", "multi", "inv", "nested"}  EndKinds = {"tip", "endsnp"}  Defects = {}  MaxDefects = 0  MinUnits = 6  Pattern <- LongPattern  Wholes = {}
 INVARIANT LexSanity
 CHECK_DEADLOCK FALSE
